@@ -6,8 +6,11 @@ cd /repo && git diff --quiet || { echo "/repo not clean"; exit 2; }
 git -C /repo apply "$PATCH" || { echo "patch does not apply"; exit 2; }
 cd /verif
 for id in "$@"; do
+  # evidence describes runs against the unchanged tree only
+  [ -f evidence/$id.json ] && cp evidence/$id.json /tmp/evidence-keep-$id.json
   echo "=== $id against $(basename $(dirname $PATCH))"
   ( time ./check "$id" quick ${MUT_ARGS:-} ) 2>&1 | grep -v "^ *at \|^ *[0-9]*: \|^KNOWN" | cut -c1-600 | grep -E "VIOLATION|violation in|property=|INCONCLUSIVE|real" | head -8
+  [ -f /tmp/evidence-keep-$id.json ] && mv /tmp/evidence-keep-$id.json evidence/$id.json
 done
 git -C /repo checkout -- . 
 echo reverted: $(git -C /repo status --short | wc -l) dirty files
